@@ -102,7 +102,7 @@ def explore(cfg, eng, ctx):
         # and the original is also right in absolute terms (ties the relation to the oracle)
         cs = []
         aggs.compare(data, base, fmt, agg, ignore, ishape, "ccube", cs)
-        eng.assert_(z3.And(*[c for _, c, _ in cs]), "ccube %s differs from the direct per-cell computation" % agg)
+        aggs.assert_all(eng, cs, "ccube %s differs from the direct per-cell computation" % agg)
         ctx.end_path()
 
     eng.explore(path)
